@@ -794,27 +794,31 @@ def check_partition(cats, label, out):
     out.dim('partition_checks', label)
 
 
-def block_names():
+def current_block_names(version):
+    """names (as spelled in the version tables) of the blocks defined for `version` and not superseded by it"""
     from elementpath.regex import unicode_blocks as ub
+    vi = tuple(int(x) for x in version.split('.'))
     names = list(ub.UNICODE_BLOCKS_VER_2_0_0)
+    removed = set()
     for k, v in ub.__dict__.items():
-        if k.startswith('UPDATE_BLOCKS_VER_'):
-            names.extend(v)
-    seen, outl = set(), []
-    for n in names:
-        if n not in seen:
-            seen.add(n)
-            outl.append(n)
-    return outl
+        if k.startswith('UPDATE_BLOCKS_VER_') and tuple(int(x) for x in k[18:].split('_')) <= vi:
+            names.extend(n for n in v if n not in names)
+        elif k.startswith('REMOVED_BLOCKS_VER_') and tuple(int(x) for x in k[19:].split('_')) <= vi:
+            removed.update(v)
+    return [n for n in names if n not in removed]
 
 
 def check_blocks(out, label):
-    """blocks defined for the installed version (normalized lookup = not superseded) are disjoint"""
+    """the blocks of the installed version (those it does not supersede) are non-empty, canonical and pairwise
+    disjoint; the XSD-spelled lookup and the normalized lookup return the same set"""
     acc = 0
     n = 0
-    for name in block_names():
-        r = call(unicode_block, name, True)
+    owner = {}
+    for name in current_block_names(unicode_version()):
+        xsd_name = name.replace(' ', '').replace('_', '')
+        r = call(unicode_block, xsd_name)
         if r[0] != 'ok':
+            out.fail('C13/table/block-lookup-failed', 'version %s: unicode_block(%r) -> %r' % (label, xsd_name, r))
             continue
         sub = r[1]
         inv = rep_invariant(list(sub.codepoints))
@@ -822,12 +826,19 @@ def check_blocks(out, label):
             out.fail('C13/table/block-representation', '%s: %s' % (name, inv))
             continue
         m = mask_of(sub.codepoints)
+        r2 = call(unicode_block, name, True)
+        if r2[0] != 'ok' or mask_of(r2[1].codepoints) != m:
+            out.fail('C13/table/block-normalized-lookup',
+                     'version %s: unicode_block(%r, normalize=True) -> %s, unicode_block(%r) is a block' % (
+                         label, name, r2[0] if r2[0] != 'ok' else 'another set', xsd_name))
         if m == 0:
             out.fail('C13/table/block-empty', name)
         if acc & m:
-            out.fail('C13/table/block-overlap', 'version %s: block %r overlaps an earlier block at %s' % (
-                label, name, intervals(acc & m)[:2]))
+            other = [o for o, om in owner.items() if om & m][:2]
+            out.fail('C13/table/block-overlap', 'version %s: block %r overlaps %s at %s' % (
+                label, name, other, intervals(acc & m)[:2]))
         acc |= m
+        owner[name] = m
         n += 1
     out.dim('blocks_checked', label, n)
     nb = call(unicode_block, 'NoBlock')
@@ -837,6 +848,8 @@ def check_blocks(out, label):
         # NoBlock is defined over all (XSD-named) blocks incl. superseded ones
         if m & ~FULL:
             out.fail('C13/table/noblock', 'outside code space')
+        if m & acc:
+            out.fail('C13/table/noblock-overlaps-a-block', 'version %s: %s' % (label, intervals(m & acc)[:2]))
 
 
 def check_versions(out, versions):
@@ -911,7 +924,7 @@ def run(h):
         if mine:
             h.case('versions', {'versions': mine}, cpu=600)
     else:
-        h.case('versions', {'versions': ['16.0.0', '13.0.0', '12.1.0', '5.0.0']}, cpu=300)
+        h.case('versions', {'versions': ['16.0.0', '13.0.0', '12.1.0', '5.0.0', '3.1.0']}, cpu=400)
     r = h.rng
     for _ in range(h.n(800)):
         h.case('subset_history', g_subset_history(r))
